@@ -20,6 +20,39 @@ Name(ty) == CASE ty.k = "prim" -> ty.t
 Modes == {"name", "view", "slicepointer", "arraypointer", "const", "namedlength", "member", "row", "constrow", "elemmember"}
 Elems == {"i32", "u8", "i128", "bool"}
 
+(***************************************************************************)
+(* Huge types.  `|:T|` is a compile-time constant, so a type need not be   *)
+(* allocated to be measured: the equations `|:[N]T|` = N * `|:T|` and      *)
+(* "structure sizes follow member sizes and alignment" also hold where the *)
+(* size in BITS passes 2^32 and the size in bytes passes 2^31 / 2^32 (the  *)
+(* places where a narrower intermediate type would wrap).  Sizes are Wide  *)
+(* 64-bit limb sequences (TLC's integers are 32-bit); lengths stay below   *)
+(* 2^32 (an array type of >= 2^32 elements ends without a diagnostic: the  *)
+(* open finding C02-internal-error-huge-array-length).                     *)
+(*   total   the size aimed at is 2^total bytes                            *)
+(*   delta   the length is 2^total / |:T| + delta - 2   (delta in 1..3)    *)
+(*   form    "array" [n]T | "nested" [n][2]T | "struct" { a: [n]T, x: i32 }*)
+(***************************************************************************)
+W == INSTANCE Wide
+HugeTotals == {29, 30, 31, 32, 33}
+HugeElems == {"u8", "i32", "i128"}
+HugeForms == {"array", "nested", "struct"}
+Log2Size(t) == CASE t = "u8" -> 0 [] t = "i32" -> 2 [] t = "i128" -> 4
+W64(n) == W!FromNat(n, 64)
+HugeLen(total, t, delta) ==
+    LET base == W!Shl(W64(1), total - Log2Size(t))
+    IN CASE delta = 1 -> W!Sub(base, W64(1)) [] delta = 2 -> base [] delta = 3 -> W!Add(base, W64(1))
+\* v rounded up to a multiple of the power of two a
+AlignUpW(v, a) == W!WAnd(W!Add(v, W64(a - 1)), W!WNot(W64(a - 1)))
+HugeSize(form, t, n) ==
+    LET arr == W!Mul(n, W64(PrimSize(t)))
+        al == Min(PrimSize(t), MaxAlign)
+    IN CASE form = "array" -> arr
+         [] form = "nested" -> W!Mul(arr, W64(2))
+         [] form = "struct" -> AlignUpW(W!Add(AlignUpW(arr, 4), W64(4)), Max(al, 4))
+\* below 2^32 elements (limbs 5..8 of the length are zero)
+HugeOK(n) == \A i \in 5..8 : n[i] = 0
+
 VARIABLES ms, done, len, mode, elem
 vars == <<ms, done, len, mode, elem>>
 Init == ms = <<>> /\ done = "no" /\ len = 0 /\ mode = "" /\ elem = ""
@@ -27,11 +60,22 @@ Grow == done = "no" /\ Len(ms) < MaxMembers /\ \E ty \in Alphabet : ms' = Append
 FinishStruct == done = "no" /\ done' = "struct" /\ UNCHANGED <<ms, len, mode, elem>>
 PickLen == /\ done = "no" /\ ms = <<>> /\ done' = "len"
            /\ len' \in 0..MaxLen /\ mode' \in Modes /\ elem' \in Elems /\ UNCHANGED ms
-Next == Grow \/ FinishStruct \/ PickLen
+\* len = exponent of the total, ms = <<delta>>, mode = form
+PickHuge == /\ done = "no" /\ ms = <<>> /\ done' = "huge"
+            /\ \E tot \in HugeTotals, d \in 1..3, f \in HugeForms, t \in HugeElems :
+                  /\ HugeOK(HugeLen(tot, t, d))
+                  /\ len' = tot /\ ms' = <<d>> /\ mode' = f /\ elem' = t
+Next == Grow \/ FinishStruct \/ PickLen \/ PickHuge
 Spec == Init /\ [][Next]_vars
 
 S == [k |-> "struct", ms |-> ms]
 \* the property's own consequences, checked on the rule
+\* the wide arithmetic agrees with the native one where both can speak (2^29 bytes of u8: 2^29 elements)
+HugeSane == done = "huge" =>
+              LET n == HugeLen(len, elem, ms[1]) IN
+              /\ (W!FitsNat(HugeSize("array", elem, n)) /\ W!FitsNat(n)) =>
+                    W!ToNat(HugeSize("array", elem, n)) = SizeOf([k |-> "array", n |-> W!ToNat(n), e |-> Prim(elem)])
+              /\ HugeSize("nested", elem, n) = W!Add(HugeSize("array", elem, n), HugeSize("array", elem, n))
 RuleSane == done = "struct" =>
               /\ SizeOf([k |-> "array", n |-> 3, e |-> S]) = 3 * SizeOf(S)
               /\ SizeOf(S) % AlignOf(S) = 0
@@ -40,6 +84,10 @@ EmitCase ==
     /\ done = "struct" => PrintT(<<"CASE", ToJson([kind |-> "struct", ms |-> [i \in 1..Len(ms) |-> Name(ms[i])],
                                                    size |-> SizeOf(S), align |-> AlignOf(S),
                                                    size2 |-> SizeOfM(S, "members")])>>)
+    /\ done = "huge" => LET n == HugeLen(len, elem, ms[1]) IN
+                       PrintT(<<"CASE", ToJson([kind |-> "huge", total |-> len, delta |-> ms[1], form |-> mode, elem |-> elem,
+                                                n |-> n, size |-> HugeSize(mode, elem, n),
+                                                size3 |-> W!Mul(HugeSize(mode, elem, n), W64(3))])>>)
     /\ done = "len" => PrintT(<<"CASE", ToJson([kind |-> "len", n |-> len, mode |-> mode, elem |-> elem,
                                                 expect |-> LenOf(len, mode),
                                                 size |-> SizeOf([k |-> "array", n |-> len, e |-> Prim(elem)])])>>)
